@@ -17,6 +17,9 @@
   What a strategy leaves behind in them and what its `finalize()` observes (`O`: account history, final positions) are
   arbitrary functions of what it found.  The manager's data flow — which objects are shared between strategies, which
   are copies — is modelled exactly; process scheduling is the parameter `assign` (which worker executes which task).
+
+  A backtest may also end in an exception (second half of the file: `FStrat`, `managerRunF`): what `run()` does then —
+  go on with the next strategy or let the exception out — is read from the source like the copies (`FailMode.current`).
 -/
 import Demeter.Gen.ConstsManager
 namespace Demeter.Manager
@@ -190,6 +193,144 @@ def managerRun {M C V N P O : Type} (env : Env M P) (md : Mode) (threads cpu : N
 def spec {M C V N P O : Type} (cfg : M) (d : Data C V N P) (strats : List (Strat M C V N P O)) : List O :=
   strats.map (fun s => (s.run cfg d).2.2)
 
+/-! ### backtests that fail
+
+A backtest may end in an exception (raised by a strategy callback or by a market, caught by nobody inside
+`Actuator.run()`): then `finalize()` is not reached and the backtest has no result.  What it left in the objects it
+was handed until then is still what `run` says; whether it fails may depend on what it was handed (`fails`).
+"Exception" is the class `Exception`: `KeyboardInterrupt`/`SystemExit` end the whole program on either path and are
+outside the model.
+
+How `BacktestManager.run()` treats such a backtest is read from the source (tools/consts_manager.py):
+
+* in-process loop — `try: _start_with_param_data(…) except Exception as e: e_callback(e)`: the failure is reported and
+  the loop goes on (`catchesInProcess`); without the handler the exception leaves `run()` and the strategies after the
+  failing one never start;
+* pooled branches — a failing task never touches the other tasks (the worker hands the exception back as the task's
+  result, `error_callback` reports it, the worker process lives on and keeps its `global_data`); `[x.wait() for x in
+  tasks]` waits for all of them (`forkPoolWaits`, `argsPoolWaits`: one flag per branch), whereas `x.get()` re-raises the first failure inside the `with Pool`
+  block, whose exit terminates the workers: tasks not finished by then have no result. -/
+
+/-- a backtest that may end in an exception -/
+structure FStrat (M C V N P O : Type) extends Strat M C V N P O where
+  /-- does `Actuator.run()` on these objects end in an uncaught exception (no `finalize()`, no result) -/
+  fails : M → Data C V N P → Bool
+
+/-- a backtest that never fails -/
+def Strat.neverFails {M C V N P O : Type} (s : Strat M C V N P O) : FStrat M C V N P O :=
+  { s with fails := fun _ _ => false }
+
+/-- how `run()` treats a failing backtest -/
+structure FailMode where
+  /-- the in-process loop catches a backtest's exception per strategy, reports it and goes on -/
+  catchesInProcess : Bool
+  /-- the forked pool (Linux/macOS branch) collects its tasks with `.wait()` (false: `.get()`, which re-raises) -/
+  forkPoolWaits : Bool
+  /-- the same for the pool whose tasks get the data as an argument (Windows branch) -/
+  argsPoolWaits : Bool
+deriving Repr, DecidableEq
+
+/-- the code as it is now: both flags are read from the source on every run -/
+def FailMode.current : FailMode :=
+  { catchesInProcess := Gen.managerCatchesInProcessFailure, forkPoolWaits := Gen.managerForkPoolWaitsForTasks,
+    argsPoolWaits := Gen.managerArgsPoolWaitsForTasks }
+
+/-- the code before the repair: `actuator = _start_with_param_data(…); e_callback(actuator)` without a handler -/
+def FailMode.beforeRepair : FailMode := { catchesInProcess := false, forkPoolWaits := true, argsPoolWaits := true }
+
+/-- `_start` of a backtest that may fail: the objects are left as `start` says, the result is `none` if it fails on the
+    objects it was handed (the attached markets, the data) -/
+def startF {M C V N P O : Type} (env : Env M P) (md : Mode) (s : FStrat M C V N P O) (cfg : M) (d : Data C V N P) :
+    M × Data C V N P × Option O :=
+  let r := start env md s.toStrat cfg d
+  (r.1, r.2.1, if s.fails (attached env md cfg) d then none else some r.2.2)
+
+/-- sequential path.  Per strategy its result, `none` = no result.  Without the handler (`catches = false`) the first
+    failure ends the loop: the strategies after it never start. -/
+def runSeqF {M C V N P O : Type} (env : Env M P) (md : Mode) (catches : Bool) :
+    M → Data C V N P → List (FStrat M C V N P O) → List (Option O)
+  | _, _, [] => []
+  | cfg, d, s :: rest =>
+    let r := startF env md s cfg d
+    if s.fails (attached env md cfg) d && !catches then none :: rest.map (fun _ => none)
+    else r.2.2 :: runSeqF env md catches r.1 r.2.1 rest
+
+/-- pooled path after fork: every task is executed whatever the other tasks do; the worker that executed a failing task
+    goes on with the data that task left -/
+def runPoolF {M C V N P O : Type} (env : Env M P) (md : Mode) (cfg : M) (assign : Nat → Nat) :
+    (Nat → Data C V N P) → Nat → List (FStrat M C V N P O) → List (Option O)
+  | _, _, [] => []
+  | w, i, s :: rest =>
+    let k := assign i
+    let r := startF env md s cfg (w k)
+    r.2.2 :: runPoolF env md cfg assign (fun j => if j = k then r.2.1 else w j) (i + 1) rest
+
+/-- pooled path with the data pickled per task (Windows branch) -/
+def runPoolArgsF {M C V N P O : Type} (env : Env M P) (md : Mode) (cfg : M) (d : Data C V N P)
+    (strats : List (FStrat M C V N P O)) : List (Option O) :=
+  strats.map (fun s => (startF env md s cfg d).2.2)
+
+/-- outcome of `BacktestManager.run()` when backtests may fail -/
+inductive FOutcome (O : Type)
+  /-- `run()` returned.  Per strategy, in the order of `strategies`: what its `finalize()` observed; `none`: its backtest
+      ended in an exception (reported through `e_callback`) -/
+  | done (res : List (Option O))
+  /-- `run()` re-raised the exception of a backtest.  `res` as before, `none` also for the strategies that never started
+      or whose worker was terminated -/
+  | aborted (res : List (Option O))
+  /-- `run()` raised before any backtest started -/
+  | raised (cls : String)
+deriving Repr, DecidableEq
+
+/-- the per-strategy results, if any backtest was started -/
+def FOutcome.results {O : Type} : FOutcome O → Option (List (Option O))
+  | .done res => some res
+  | .aborted res => some res
+  | .raised _ => none
+
+/-- the in-process loop as a whole: without the handler a failure leaves `run()` -/
+def seqOutcome {O : Type} (catches : Bool) (res : List (Option O)) : FOutcome O :=
+  if !catches && res.any Option.isNone then .aborted res else .done res
+
+/-- the tasks before the first failing one (all of them if none fails) -/
+def firstFailure {O : Type} : List (Option O) → Nat
+  | [] => 0
+  | none :: _ => 0
+  | some _ :: rest => firstFailure rest + 1
+
+/-- collecting the pool's tasks in submission order.  `.wait()`: all of them complete.  `.get()`: the first failing task
+    `i` re-raises, the block's exit terminates the workers; tasks `j < i` have completed, a task `j > i` has a result only
+    if it happened to be finished by then (`finished j`: scheduling, arbitrary). -/
+def poolOutcome {O : Type} (waits : Bool) (finished : Nat → Bool) (res : List (Option O)) : FOutcome O :=
+  if waits || !res.any Option.isNone then .done res
+  else
+    let i := firstFailure res
+    .aborted ((List.range res.length).zipWith (fun j r => if j ≤ i || finished j then r else none) res)
+
+/-- `BacktestManager.run()` with backtests that may fail: the dispatch of `managerRun`, every path with its treatment of
+    failures.  `finished` matters only when the tasks are fetched with `.get()`. -/
+def managerRunF {M C V N P O : Type} (env : Env M P) (md : Mode) (fm : FailMode) (threads cpu : Nat) (windows ctxSet : Bool)
+    (assign : Nat → Nat) (finished : Nat → Bool) (cfg : Option M) (d : Option (Data C V N P))
+    (strats : List (FStrat M C V N P O)) : FOutcome O :=
+  match cfg, d with
+  | none, _ => .raised "RuntimeError"
+  | some _, none => .raised "RuntimeError"
+  | some cfg, some d =>
+    if strats.length < 1 then .done []
+    else if strats.length = 1 ∨ threads = 1 then seqOutcome fm.catchesInProcess (runSeqF env md fm.catchesInProcess cfg d strats)
+    else if threads > cpu then .raised "TypeError"
+    else if windows then
+      if threads = 0 then .raised "ValueError"
+      else poolOutcome fm.argsPoolWaits finished (runPoolArgsF env md cfg d strats)
+    else if ctxSet then .raised "RuntimeError"
+    else if threads = 0 then .raised "ValueError"
+    else poolOutcome fm.forkPoolWaits finished (runPoolF env md cfg assign (fun _ => d) 0 strats)
+
+/-- the specification: every strategy alone, run by a plain Actuator on the fresh configuration and the original data —
+    its result, or none if that backtest fails -/
+def specF {M C V N P O : Type} (cfg : M) (d : Data C V N P) (strats : List (FStrat M C V N P O)) : List (Option O) :=
+  strats.map (fun s => if s.fails cfg d then none else some (s.run cfg d).2.2)
+
 /-! ### the projection the driver runs: what does each strategy find in the objects it is handed -/
 
 /-- market objects: positions on the first / second market, are the references between the markets intact -/
@@ -223,5 +364,10 @@ def probeStrat (e : Effect) : Strat PM Nat Nat Nat (Nat × Bool) (PM × PData) w
 def probeEnv (priceDec linked : Bool) : Env PM (Nat × Bool) where
   isDec p := priceDec && !p.2
   sever m := (m.1, m.2.1, m.2.2 && !linked)
+
+/-- a scripted strategy that may fail: always (`always`), or only if it finds something it did not expect in the
+    objects it was handed — a position on the first market, an added column (`ifDisturbed`) -/
+def probeFStrat (e : Effect) (always : Bool) (ifDisturbed : Bool := false) : FStrat PM Nat Nat Nat (Nat × Bool) (PM × PData) :=
+  { probeStrat e with fails := fun m d => always || (ifDisturbed && (m.1 != 0 || d.cols != 0)) }
 
 end Demeter.Manager
